@@ -232,6 +232,11 @@ def rule_remove(ctx, M, gname, rule):
             probs.append("remove touches a slot other than the given key")
         if not all(bi.guarded_by(x, te) for x in st + sr):
             probs.append("state / slab entry removed without the key having been present")
+    # the deferred-removal queue belongs to the poll loop (which cannot edit `keys` while iterating it): an entry queued
+    # here outlives the removal and later deletes the key of whatever member re-uses the slot
+    q = [s for s in bi.sites if s.args and s.arg(0) == sf("key_removal_queue") and s.callee.name in ("push", "insert", "extend", "extend_from_slice", "append")]
+    if q:
+        probs.append("remove queues the key for deferred removal although it deletes it itself")
     rets = flow.returned_values(bi)
 
     def presence(blk, t):
